@@ -8,7 +8,7 @@ by the Lean driver (`gobuild`, `pybuild`), which must predict builder.internal, 
 builder.errors and the outcome of Build().  Oracle: the property itself on the real outcomes
 (harness/c09_stream.go: reference interpreter on JSON documents).
 """
-import collections, json, os, re, sys
+import collections, json, os, re, sys, time
 import verifkit.core as core
 from verifkit.core import *
 
@@ -116,12 +116,13 @@ class Runner:
         self.stats = collections.Counter()
         self.tags = collections.Counter()
         self.pending, self.disagree = [], []
+        self.shrink_deadline = time.time() + 150
         if os.path.exists(PROPOSED):
             try:
-                have = {f["id"] for f in c.known}
+                # a proposed entry refines the merged entry of the same id until it is merged again
                 for f in json.load(open(PROPOSED)).get("findings", []):
-                    if f.get("property") == PID and f["id"] not in have:
-                        c.known.append(f)
+                    if f.get("property") == PID:
+                        c.known[:] = [k for k in c.known if k["id"] != f["id"]] + [f]
             except Exception as e:
                 c.oblige("proposed findings file is readable", False, str(e))
 
@@ -184,15 +185,19 @@ class Runner:
     def shrink(self, r):
         want = " ".join(r.verdict.split(" ")[:2])
         best = (pinned_line(r), case_text(r))
+        if time.time() > self.shrink_deadline:
+            return best
         tmp = os.path.join(WORK, "c09_shrink_%d.tsv" % os.getpid())
         try:
-            for _ in range(8):
+            for _ in range(5):
+                if time.time() > self.shrink_deadline:
+                    break
                 open(tmp, "w").write(best[0] + "\n")
                 cands = ["\t".join(x) for x in harness(self.hb, "c09-cands", **{"in": tmp}) if len(x) == 5]
                 cands = [x for x in dict.fromkeys(cands) if x != best[0] and len(x) < len(best[0])]
                 if not cands:
                     break
-                runs, _ = self.rerun(cands[:60])
+                runs, _ = self.rerun(cands[:30])
                 hit = None
                 for x in runs:
                     if x.verdict.startswith(want) and x.calls != "(build (ctor))":
@@ -212,6 +217,7 @@ class Runner:
     def report(self):
         c = self.c
         seen, reported = set(), 0
+        self.shrink_deadline = time.time() + 150
         for name, r, text in self.pending:
             cls = re.sub(r"(builder|path|field|at|want|got|new-violation|viol)=\S+", "", re.sub(r"[0-9]+", "N", r.verdict))[:140]
             if cls in seen:
@@ -220,7 +226,7 @@ class Runner:
             line, stext = self.shrink(r)
             if c.match_known(stext):
                 continue
-            if reported < 5:
+            if reported < 3:
                 f = line.split("\t")
                 c.violation({"kind": "oracle-failure", "stream": name, "oracle": r.verdict, "format": f[0], "defs": f[1], "veneers": f[2],
                              "builder": f[3], "calls": f[4], "impl": r.impl[:600], "model": r.model[:600], "case_text": stext,
@@ -248,6 +254,11 @@ def main():
         "the oracle's reference interpreter (harness/c09_stream.go) works on JSON documents up to omitempty",
     ]
     hb, err = build_go("verifharness", "harness", files=FILES, tag="c09")
+    for _ in range(2):
+        # another check trimming the shared Go build cache while we link is not a fact about cog
+        if hb is None and "go-build" in err:
+            time.sleep(3)
+            hb, err = build_go("verifharness", "harness", files=FILES, tag="c09")
     c.oblige("harness + lab build against the working tree of %s" % core.REPO, hb is not None, err)
     thms = theorem_names()
     c.oblige("Props/C09.lean states theorems", len(thms) >= 5, thms)
